@@ -204,9 +204,10 @@ func init() {
 			case 6:
 				v = rtValue{typ: "number", expr: "$x", decl: "number $x", vars: map[string]string{"x": big1.String()}}
 			case 7:
-				v = rtValue{typ: "monetary", expr: "[" + r.Pick(assetPool) + " " + bi(int64(r.Intn(2000)-1000)).String() + "]"}
+				// any spelling the ASSET token allows: letters, digits and slashes in any order
+				v = rtValue{typ: "monetary", expr: "[" + r.Pick(append(assetPool, "A", "1INCH", "BTC/USD", "USD/2/3", "/2", "2KEY/8", "X/Y/9", "0A")) + " " + bi(int64(r.Intn(2000)-1000)).String() + "]"}
 			case 8:
-				v = rtValue{typ: "monetary", expr: "$x", decl: "monetary $x", vars: map[string]string{"x": r.Pick(assetPool) + " " + big1.String()}}
+				v = rtValue{typ: "monetary", expr: "$x", decl: "monetary $x", vars: map[string]string{"x": r.Pick(append(assetPool, "1INCH", "BTC/USD", "EUR/2/1")) + " " + big1.String()}}
 			case 9:
 				v = rtValue{typ: "portion", expr: func() string {
 					d := 1 + r.Intn(40)
